@@ -701,7 +701,8 @@ def gen_C01(rng, tier):
     regions = [dirty_padding(r, rng) for r in gen_mbi_regions(rng, n, dist)]
     # indexed framebuffer: every buffer length x colour count around it (the palette must fit behind its 2-byte count)
     for L in range(0, 26):
-        for ncol in list(range(0, 10)) + [255, 256, 0xFFFF]:
+        # 21846, 21847, 43691, 43692: 3 * count wraps to 2, 5, 1, 4 in 16-bit arithmetic
+        for ncol in list(range(0, 10)) + [255, 256, 21845, 21846, 21847, 43691, 43692, 0xFFFF]:
             buf = (E.u16(ncol) + marker(64, start=L + ncol))[:L]
             cases.append(mbi_case(E.mbi([E.t_framebuffer(0x1000, 1, 2, 3, 8, 0, buf, 0), E.t_cmdline("NEXT")])))
             count(dist, "palette_family")
@@ -815,7 +816,8 @@ class ConformantGen(TM.Gen):
     def acpi_v2(self):
         r = self.r
         d = E.rsdp_v2(b"RSD PTR ", r.choice(TM.OEMS), self.u(8), self.u(32), 36, self.u(64),
-                      None if r.random() < 0.7 else self.u(8), None if r.random() < 0.7 else self.u(8), bytes(3))
+                      None if r.random() < 0.7 else self.u(8), None if r.random() < 0.7 else self.u(8),
+                      bytes(3) if r.random() < 0.3 else self.rb(3))       # the reserved bytes are part of the checksummed table
         return E.t_acpi_v2(d)
 
     def vbe(self):
@@ -889,13 +891,18 @@ def gen_C05(rng, tier):
                 body[0:12] = E.u32(rng.choice([0, 1])) + E.u32(40) + E.u32(0)
             if typ == 8 and len(body) >= 24:
                 body[21] = rng.choice([0, 1, 2])
-            # padding and the neighbouring tag carry bytes that would be visible if looked at
-            for i in range(max(0, s - 8), len(body)):
-                body[i] = 0xAA
-            t = (E.u32(typ) + E.u32(s) + bytes(body))[:n]
-            region = E.mbi([t, E.t_cmdline("NEXT-TAG")])
-            cases.append(mbi_case(region))
-            count(dist, "kind_%d" % typ)
+            # padding and the neighbouring tag carry bytes that would be visible if looked at; for the string kinds also
+            # zero padding and padding ending in a NUL (a terminator found there would be a read past the declared size)
+            for pad in ([0xAA, 0x00, 0xA0] if typ in (1, 2, 3) else [0xAA]):
+                b2 = bytearray(body)
+                for i in range(max(0, s - 8), len(b2)):
+                    b2[i] = 0xAA if pad == 0xA0 else pad
+                if pad == 0xA0 and len(b2) > max(0, s - 8):
+                    b2[-1] = 0
+                t = (E.u32(typ) + E.u32(s) + bytes(b2))[:n]
+                region = E.mbi([t, E.t_cmdline("NEXT-TAG")])
+                cases.append(mbi_case(region))
+                count(dist, "kind_%d" % typ)
     # information request of the header crate: every size 8..40 and beyond
     for s in list(range(0, 41)) + [44, 48, 100, 0xFFFFFFFF]:
         n = max(8, (min(s, 128) + 7) // 8 * 8)
@@ -1023,13 +1030,96 @@ def gen_C19(rng, tier):
                          (64, 0x04000000), (0x10000, 0xFFFF), (1, 0xFFFFFFFF), (0, 0xFFFFFFFF), (40, 0), (64, 1)):
             cases.append(mbi_case(E.mbi([E.t_elf(n, es, sh, bytes(64 * max(n, 1)))])))
             count(dist, "overflowing_products")
+    cases += gen_elfname(rng, 400 if tier == "thorough" else 60, dist)
     return cases, dict(
-        rule="mbi: ELF sections tags for entry counts 0..4 x entry sizes (thorough: 0..128; quick: 16 values around 40 and 64) x "
+        rule="elfname: 1..6 entries of size 40/64, the string table (1..6 names incl. empty, multi-byte and invalid UTF-8, "
+             "6% without a final NUL) in an external buffer at a fixed 32-bit address in front of a guard page; every entry but "
+             "the designated one carries a decoy address; name indices at name starts, inside names, zero. "
+             "mbi: ELF sections tags for entry counts 0..4 x entry sizes (thorough: 0..128; quick: 16 values around 40 and 64) x "
              "string-table indices 0..5 x section byte lengths {n*es, n*es+-1, n*es+8}, raw types drawn from every class boundary, "
              "random entry contents for both layouts; overflowing count*size products. Compared: accept/panic, every yielded section "
              "(offset, class, raw type, flags, address, end, size, alignment), remaining count. distinct_nontrivial = distinct "
              "(domain, model transcript) pairs.",
         dist=dist, exhaustive=(tier == "thorough"))
+
+
+# ---- ELF section names (domain elfname): the string table lives in external memory at a fixed absolute address ----
+ELFNAME_EXT_END = 0x30002000     # page-aligned end of the external buffer; fits 32-bit sh_addr fields
+
+
+def gen_elfname(rng, n, dist):
+    cases = []
+    in_use = [1, 2, 3, 8, 11, 0x60000000, 0x70000001, 0x80000000]
+    pool = [b".text", b".data", b".bss", b"", b"\xc3\xa9t\xc3\xa9", b".rodata.str1.1", b"\xff\xfe", b"a\xc0\x80", b"x" * 40,
+            b"\xf0\x9f\x98\x80", b"\xed\xa0\x80"]
+    for _ in range(n):
+        names = [rng.choice(pool) for _ in range(rng.randrange(1, 7))]
+        ext = bytearray()
+        starts = []
+        lead = rng.randrange(0, 3)
+        ext += bytes([0x41 + rng.randrange(0, 26) for _ in range(lead)])      # bytes before the first name (no NUL)
+        for nm in names:
+            starts.append(len(ext))
+            ext += nm + b"\0"
+        unterminated = rng.random() < 0.06
+        if unterminated:
+            starts.append(len(ext))
+            ext += b"runs-off"                                          # no NUL before the guard page
+        ext_base = ELFNAME_EXT_END - len(ext)
+        es = rng.choice([40, 64])
+        nsec = rng.randrange(1, 7)
+        sh = rng.randrange(0, nsec)
+        delta = rng.choice([0, 0, 1, 2, lead])                         # string table address = ext_base + delta
+        delta = min(delta, len(ext) - 1)
+        entries = []
+        kinds = []
+        for k in range(nsec):
+            typ = rng.choice(in_use) if rng.random() < 0.85 else 0
+            x = rng.random()
+            if unterminated and k == nsec - 1 and typ != 0:
+                ni = starts[-1] - delta if starts[-1] >= delta else 0
+                kinds.append("unterminated")
+            elif x < 0.75:
+                s = rng.choice(starts[:len(names)])
+                ni = s - delta if s >= delta else 0
+                kinds.append("name_start")
+            elif x < 0.95:
+                ni = rng.randrange(0, max(1, len(ext) - delta - (8 if unterminated else 0)))   # inside some name
+                kinds.append("mid_name")
+            else:
+                ni = 0
+                kinds.append("zero")
+            addr = ext_base + delta if k == sh else rng.getrandbits(32)
+            # every entry but the designated one carries a decoy address: a wrong choice of entry is visible
+            if es == 40:
+                entries.append(E.elf32_entry(ni, typ, rng.getrandbits(3), addr, 0, rng.getrandbits(16), 0, 0, 8, 0))
+            else:
+                entries.append(E.elf64_entry(ni, typ, rng.getrandbits(3), addr, 0, rng.getrandbits(16), 0, 0, 8, 0))
+        for kd in kinds:
+            count(dist, "elfname_" + kd)
+        count(dist, "elfname_es%d" % es)
+        tags = [E.t_elf(nsec, es, sh, b"".join(entries))]
+        if rng.random() < 0.3:
+            tags.insert(0, E.t_cmdline("x"))
+        region = E.mbi(tags)
+        cases.append("elfname %s %d %s" % (hx(valid_mem(region)), ext_base, hx(bytes(ext))))
+    return cases
+
+
+def judge_C19(case, ml, il):
+    """ELF section names live at an external address: where the model says the read leaves the external buffer the
+    property makes no claim (compare the transcript before that line only); everything else is compared in full"""
+    if case.startswith("elfname "):
+        if il == ["SKIP"]:
+            return ("ok", "")
+        k = next((i for i, l in enumerate(ml) if l.startswith("elfname ") and l.endswith(" UB")), None)
+        if k is not None:
+            body = il[:-1] if il and (il[-1].startswith("CRASH") or il[-1] == "TIMEOUT") else il
+            if body[:k] == ml[:k] or (len(body) < k and body == ml[:len(body)]):
+                return ("ok", "")
+            return default_judge(case, ml[:k], il)
+        return ("ok", "") if ml == il else default_judge(case, ml, il)
+    return judge_projection(["load", "get", "elf", "elf_section", "elf_end"])(case, ml, il)
 
 
 # ---- header regions --------------------------------------------------------------------------------
@@ -1126,7 +1216,7 @@ PROPS.update({
                 both_placements=True, assumptions=["Rust &str arguments are valid UTF-8 by the type's invariant"]),
     "C18": dict(gen=gen_C18, configs=["dev", "rel"], judge=judge_projection(["load", "get", "efi_mmap", "efi_desc", "efi_end"]),
                 both_placements=True, assumptions=[]),
-    "C19": dict(gen=gen_C19, configs=["dev", "rel"], judge=judge_projection(["load", "get", "elf", "elf_section", "elf_end"]),
+    "C19": dict(gen=gen_C19, configs=["dev", "rel"], judge=judge_C19,
                 both_placements=True, assumptions=["section names (external addresses) are not dereferenced"]),
     "C09": dict(gen=gen_C09, configs=["dev", "rel"], judge=judge_mbi_full, both_placements=True, check_model_ub=True, assumptions=HDR_ASSUME),
     "C11": dict(gen=gen_C11, configs=["dev", "rel"], judge=judge_mbi_full, check_model_ub=True, assumptions=HDR_ASSUME),
